@@ -62,6 +62,10 @@ func kindMatches(kind string, sel []string) bool {
 		if kind == s || strings.HasPrefix(kind, s) {
 			return true
 		}
+		// "termination" selects the variant obligations of loops (loopK.decreases)
+		if s == "termination" && strings.HasPrefix(kind, "loop") && strings.HasSuffix(kind, ".decreases") {
+			return true
+		}
 	}
 	return false
 }
